@@ -3,7 +3,7 @@ POP = r'^_ZN5quill2v96detail14StringFromTime49_populate_pre_formatted_string_and
 HOOKS = [r'^_ZN8fmtquill3v119format_toIPcJR?K?jE=vh_fmt_u32', r'^_ZN8fmtquill3v119format_toIPcJRlE=vh_fmt_i64', r'^_ZN5quill2v96detail14StringFromTime14_safe_strftimeEPKclNS0_8TimezoneE=vh_safe_strftime']
 def rlen(parts):
     import re as _re
-    return sum(sum({'s': 10, 'u': 1, '%': 1}.get(c[1], 2) if c[0] == '%' else 1 for c in _re.findall(r'%.|.', p)) for p in parts)
+    return sum(sum({'s': 10, 'u': 1, '%': 1, 'A': 9}.get(c[1], 2) if c[0] == '%' else 1 for c in _re.findall(r'%.|.', p)) for p in parts)
 def sft(name, parts, tier, ncalls=3, local=False, tzany=False, window=172800, timeout=280, unwind=24):
     pattern = ''.join(parts)
     return Q(name, 'C13_sft.cpp', 'h_sft', defines=['PARTS=%s' % ','.join('"%s"' % p for p in parts), 'PATTERN="%s"' % pattern, 'NCALLS=%d' % ncalls, 'WINDOW=%d' % window, 'RLEN=%d' % rlen(parts)] + (['LOCALTZ'] if local else []) + (['TZANY'] if tzany else []),
@@ -23,9 +23,11 @@ P_12 = ['%I', ':', '%M', ' %p']
 P_LK = ['%l', '%p ', '%k']
 P_WD = ['%u ', '%H', ':', '%M']
 P_EP = ['%s', ' ', '%S']
+P_WN = ['%A ', '%H']
 QUERIES = [sft('hms_gmt', P_HMS, 'quick', ncalls=2, unwind=12), pop('populate_hms_gmt', P_HMS, 'quick'),
            sft('i_p_gmt', P_12, 'quick', ncalls=2, unwind=12), pop('populate_i_p_local', P_12, 'quick', local=True),
            sft('hms_localany', P_HMS, 'quick', ncalls=2, unwind=12, local=True, tzany=True, timeout=900),
+           sft('h_gmt_n3', ['%H'], 'thorough', ncalls=3, unwind=12, timeout=1700), sft('wdname_h_gmt_n3', P_WN, 'quick', ncalls=3, unwind=14, timeout=1200, window=93600), pop('populate_wdname_gmt', P_WN, 'quick'),
            sft('weekday_gmt', P_WD, 'thorough', ncalls=2, unwind=12, timeout=1700), pop('populate_weekday_gmt', P_WD, 'thorough'),
            sft('l_k_gmt', P_LK, 'thorough', ncalls=2, unwind=12, timeout=1700), pop('populate_l_k_gmt', P_LK, 'thorough'),
            sft('epoch_gmt', P_EP, 'thorough', ncalls=2, unwind=14, timeout=1700), pop('populate_epoch_local', P_EP, 'thorough', local=True),
